@@ -11,7 +11,7 @@ from .c02 import Stream
 
 ID = 'C04'
 NEED_BINS = True
-SIZES = {'quick': 1200, 'thorough': 40000}
+SIZES = {'quick': 1200, 'thorough': 80000}
 REQUIRED_EVENTS = ['assignments_compared', 'typed_results_agreed', 'decodes_agreed']
 RULE = ('layer sets of 1-3 layers x 1-2 documents over map-rooted, null-free trees of printable strings, 64-bit integers (> 2^31, > 2^53), '
         'doubles (0.1, 17-digit values, extremes), bools and nested containers; children are built so that comparisons decide the result: '
